@@ -300,7 +300,7 @@ fn run_case(rng: &mut Rng, clean: bool) -> Case {
 
 pub fn run(tier: Tier, seed: u64) -> i32 {
     let mut rep = Report::new("C19", tier, seed, "exploration");
-    let n = budget(tier, 40_000, 5_000_000);
+    let n = budget(tier, 100_000, 20_000_000);
     let nw = ncpu();
     parallel(nw, &mut rep, |w| {
         let mut part = Report::new("C19", tier, seed, "exploration");
